@@ -119,31 +119,37 @@ func (c *Cluster) handleListOffsets(creq *clientReq) (kmsg.Response, error) {
 				}
 			default:
 				// Two-level binary search for the first batch whose maxTimestamp >= requested timestamp.
-				segIdx, _, meta := pd.findBatchMeta(rp.Timestamp, func(m *batchMeta) int64 { return m.maxTimestamp })
-				if meta == nil {
-					sp.Offset = -1
-				} else {
-					sp.Offset = meta.firstOffset
-					sp.Timestamp = meta.firstTimestamp
-					sp.LeaderEpoch = meta.epoch
-					// Read the full batch to iterate records for precise timestamp
-					batch, err := c.readBatchFull(pd, segIdx, meta)
-					if err != nil {
-						sp.ErrorCode = kerr.CorruptMessage.Code
-						continue
-					}
-					err = forEachBatchRecord(batch.RecordBatch, func(rec kmsg.Record) error {
-						timestamp := batch.FirstTimestamp + rec.TimestampDelta64
-						offset := batch.FirstOffset + int64(rec.OffsetDelta)
-						if timestamp <= rp.Timestamp {
-							sp.Offset = offset
-							sp.Timestamp = timestamp
+				// The answer is the earliest record at or after the log start
+				// offset whose timestamp is at or after the requested one.
+				sp.Offset = -1
+				segIdx, metaIdx, meta := pd.findBatchMeta(rp.Timestamp, func(m *batchMeta) int64 { return m.maxTimestamp })
+				var found bool
+				for ; meta != nil && segIdx < len(pd.segments) && !found && sp.ErrorCode == 0; segIdx, metaIdx = segIdx+1, 0 {
+					seg := &pd.segments[segIdx]
+					for ; metaIdx < len(seg.index) && !found; metaIdx++ {
+						m := &seg.index[metaIdx]
+						if m.maxTimestamp < rp.Timestamp || m.firstOffset+int64(m.lastOffsetDelta) < pd.logStartOffset {
+							continue
 						}
-						return nil
-					})
-					if err != nil {
-						sp.ErrorCode = kerr.CorruptMessage.Code
-						continue
+						// Read the full batch to iterate records for precise timestamp
+						batch, err := c.readBatchFull(pd, segIdx, m)
+						if err == nil {
+							err = forEachBatchRecord(batch.RecordBatch, func(rec kmsg.Record) error {
+								timestamp := batch.FirstTimestamp + rec.TimestampDelta64
+								offset := batch.FirstOffset + int64(rec.OffsetDelta)
+								if !found && timestamp >= rp.Timestamp && offset >= pd.logStartOffset {
+									sp.Offset = offset
+									sp.Timestamp = timestamp
+									sp.LeaderEpoch = m.epoch
+									found = true
+								}
+								return nil
+							})
+						}
+						if err != nil {
+							sp.ErrorCode = kerr.CorruptMessage.Code
+							break
+						}
 					}
 				}
 			}
